@@ -115,6 +115,10 @@ def run(ctx, rep, tier):
         for a in [n for n in walk_no_nested(f) if isinstance(n, ast.Assert)]:
             n_raise += 1
             key = (q, ast.unparse(a.test))
+            why = None if key in ASSERT_TRIAGE else assert_discharged(model, q, f, a)
+            if why:
+                rep.ok("C18.a", q, f"assert {key[1][:60]}: cannot fail - {why}")
+                continue
             rep.check(key in ASSERT_TRIAGE, "C18.a", q, f"assert {key[1][:60]}", f"untriaged assert `{key[1]}` in the pipeline: a false assertion is an internal exception", line=a.lineno)
     if n_raise < 12:
         raise AnalysisError(f"C18.a: only {n_raise} non-NMFU raises/asserts found (floor 12)")
@@ -284,6 +288,87 @@ def run(ctx, rep, tier):
 
 
 # ================================================================================================================ helpers
+def _block_of(model, node):
+    par = model.parents.get(node)
+    for fld in ("body", "orelse", "finalbody"):
+        blk = getattr(par, fld, None)
+        if isinstance(blk, list) and any(x is node for x in blk):
+            return blk, [x is node for x in blk].index(True)
+    return None, None
+
+
+def _untouched(stmts, names):
+    """None of `names` is rebound, nor is a method called on / an item stored into one of them, in `stmts`."""
+    for st in stmts:
+        for n in ast.walk(st):
+            if isinstance(n, ast.Name) and n.id in names and not isinstance(n.ctx, ast.Load):
+                return False
+            if isinstance(n, (ast.Attribute, ast.Subscript)) and not isinstance(n.ctx, ast.Load) and any(isinstance(x, ast.Name) and x.id in names for x in ast.walk(n)):
+                return False
+            if isinstance(n, ast.Call) and isinstance(n.func, ast.Attribute) and any(isinstance(x, ast.Name) and x.id in names for x in ast.walk(n.func.value)):
+                return False
+    return True
+
+
+def assert_discharged(model, q, f, a):
+    """An assertion that cannot fail is no way to an internal exception. Two forms are decided:
+    (1) an earlier statement of the same block leaves (raise / return / continue / break) exactly when the assertion would fail, and nothing in between touches what the test reads;
+    (2) `assert isinstance(x, T)` where x was just bound from a call of a method of the same class all of whose returns build a T at that position (or from T(..) itself)."""
+    from ..canon import nexpr, neg
+    blk, i = _block_of(model, a)
+    if blk is None:
+        return None
+    want = ast.dump(nexpr(a.test, True))
+    names = {n.id for n in ast.walk(a.test) if isinstance(n, ast.Name)} - {"len", "isinstance", "type"}
+    for j in range(i - 1, -1, -1):
+        st = blk[j]
+        if isinstance(st, ast.If) and not st.orelse and isinstance(st.body[-1], (ast.Raise, ast.Return, ast.Continue, ast.Break)) and ast.dump(neg(nexpr(st.test, True))) == want:
+            if _untouched(blk[j + 1:i], names):
+                return f"the block leaves at `if {ast.unparse(st.test)[:50]}` otherwise"
+            return None
+    t = a.test
+    if isinstance(t, ast.Call) and ast.unparse(t.func) == "isinstance" and len(t.args) == 2 and isinstance(t.args[0], ast.Name) and isinstance(t.args[1], ast.Name):
+        x, T = t.args[0].id, t.args[1].id
+        for j in range(i - 1, -1, -1):
+            st = blk[j]
+            bound = [n for n in ast.walk(st) if isinstance(n, ast.Name) and n.id == x and isinstance(n.ctx, ast.Store)]
+            if not bound:
+                if not _untouched([st], {x}):
+                    return None
+                continue
+            if not isinstance(st, ast.Assign) or len(st.targets) != 1 or not isinstance(st.value, ast.Call):
+                return None
+            tgt, pos = st.targets[0], None
+            if isinstance(tgt, ast.Tuple):
+                ix = [k for k, e in enumerate(tgt.elts) if isinstance(e, ast.Name) and e.id == x]
+                if len(ix) != 1:
+                    return None
+                pos = ix[0]
+            elif not isinstance(tgt, ast.Name):
+                return None
+            fn = st.value.func
+            if pos is None and isinstance(fn, ast.Name) and fn.id == T:
+                return f"bound from {T}(..)"
+            if isinstance(fn, ast.Attribute) and isinstance(fn.value, ast.Name) and fn.value.id == "self" and "." in q:
+                callee = model.functions.get(q.rsplit(".", 1)[0] + "." + fn.attr)
+                if callee is None:
+                    return None
+                rets = [r for r in walk_no_nested(callee) if isinstance(r, ast.Return)]
+                if not rets or may_fall_off(callee):
+                    return None
+                for r in rets:
+                    v = r.value
+                    if pos is not None:
+                        if not isinstance(v, ast.Tuple) or pos >= len(v.elts):
+                            return None
+                        v = v.elts[pos]
+                    if not (isinstance(v, ast.Call) and isinstance(v.func, ast.Name) and v.func.id == T):
+                        return None
+                return f"every return of {fn.attr} builds a {T} there"
+            return None
+    return None
+
+
 def dead_raises(ctx):
     """(function, lineno) -> reason, for residual raises of dispatches shown total on this run."""
     model, g = ctx.model, ctx.grammar
